@@ -297,3 +297,14 @@ def run(ck, prog):
     from sa.builders import check_builders
     check_builders(ck, prog, r"^naive_bayes::\w+::\w+NBParameters$")
     ck.floor("E2-builder", 7)
+
+
+# ------------------------------------------------------------------ generic: rows/cols (outer/inner) mix-up of locally allocated buffers
+_run_pre_dimension = run
+DIMENSION_FILES = ['src/math/vector.rs', 'src/naive_bayes/bernoulli.rs', 'src/naive_bayes/categorical.rs', 'src/naive_bayes/gaussian.rs', 'src/naive_bayes/mod.rs', 'src/naive_bayes/multinomial.rs']
+
+
+def run(ck, prog):
+    _run_pre_dimension(ck, prog)
+    from sa import dimension
+    dimension.run_rule(ck, prog, set(DIMENSION_FILES))
